@@ -210,6 +210,20 @@ func c18Full(k *fw.K) {
 				k.Failf("Full(%v).Init(%v) returned an untracked tensor", f.want, s)
 				return
 			}
+			// a second call with the same shape yields an independent tensor: a back-propagation through the first must not reach it
+			t2, err := f.in.Init(ref.CopyInts(s))
+			if err != nil {
+				k.Failf("Full(%v).Init(%v), second call: %v", f.want, s, err)
+				return
+			}
+			if err := tensor.BackPropagate(t.Scale(3)); err != nil || t.Gradient() == nil {
+				k.Failf("Full(%v).Init(%v): result is not a tracked leaf (err=%v)", f.want, s, err)
+				return
+			}
+			if t2.Gradient() != nil {
+				k.Failf("Full(%v).Init(%v): two calls returned tensors that share gradient state (back-propagating through the first gave the second a gradient)", f.want, s)
+				return
+			}
 			k.Count("init_calls", 1)
 		}
 	}
